@@ -36,6 +36,45 @@ Proof.
 Qed.
 Print Assumptions peel_all.
 
+(* A media type profile the packager has no packer for ("application/didcomm-enc-env", an unknown default): every pack
+   goes to the framework's primary packer.  With an anoncrypt primary packer the send IS [wrap] with that packer; with
+   an authcrypt one a routed send fails closed (a forward has no sender key), an unrouted one is [wrap]; whenever the
+   send succeeds, the statement of peel_all holds for it. *)
+Theorem primary_packer_send : forall v prim kt e st spar payload sender rcpts routing rn,
+  (is_auth prim = false \/ routing = [] ->
+     wrap_primary v prim kt e st spar payload sender rcpts routing rn
+       = wrap v (mkcfg prim kt e st) (primary_profile prim) spar payload sender rcpts routing rn) /\
+  (is_auth prim = true -> routing <> [] ->
+     forall x, wrap_primary v prim kt e st spar payload sender rcpts routing rn <> Ok x).
+Proof.
+  intros v prim kt e st spar payload sender rcpts routing rn. unfold wrap_primary. split.
+  - intros [H| ->]; [rewrite H; reflexivity|]. destruct (is_auth prim); reflexivity.
+  - intros H Hr x. rewrite H. destruct routing as [|h r]; [congruence|]. destruct rcpts as [|r0 rs]; [discriminate|].
+    destruct (pack (mkcfg prim kt e st) spar (pay_id payload) sender (r0 :: rs) rn); cbn [bind]; discriminate.
+Qed.
+Print Assumptions primary_packer_send.
+
+Theorem peel_all_primary : forall prim kt e st spar payload sender rcpts routing rn outer ls parties,
+  let c := mkcfg prim kt e st in let pf := primary_profile prim in
+  wrap_primary FFixed prim kt e st spar payload sender rcpts routing rn = Ok (outer, ls) ->
+  Forall2 (fun p h => In (h_key h) p) parties (rev routing) ->
+  exists r0 w0, hd_error rcpts = Some r0 /\ pack c spar (pay_id payload) sender rcpts rn = Ok w0 /\
+    peel_chain ls parties outer
+      = Ok (map (to_ref (style_of c) pf) (rev (removelast (r0 :: map h_key routing))), w0) /\
+    forall party, (exists k, In k rcpts /\ In k party) ->
+      exists k, In k rcpts /\ In k party /\
+        peel ls party w0 = Ok (PMsg payload, expect_from (packer_of c) sender, k).
+Proof.
+  intros prim kt e st spar payload sender rcpts routing rn outer ls parties c pf Hw HF.
+  destruct (primary_packer_send FFixed prim kt e st spar payload sender rcpts routing rn) as [H1 H2].
+  destruct (is_auth prim) eqn:Ea.
+  - destruct routing as [|h r].
+    + rewrite (H1 (or_intror eq_refl)) in Hw. exact (peel_all c pf spar payload sender rcpts [] rn outer ls parties Hw HF).
+    + exfalso. apply (H2 eq_refl (fun E => ltac:(discriminate E)) _ Hw).
+  - rewrite (H1 (or_introl eq_refl)) in Hw. exact (peel_all c pf spar payload sender rcpts routing rn outer ls parties Hw HF).
+Qed.
+Print Assumptions peel_all_primary.
+
 (* FULL STATEMENT, part 2 (opaque to mediators).  Whatever variant of the embedding, every layer the dispatcher
    created opens for a holder of the single key it is addressed to — yielding an anonymous forward (no sender key) —
    and for NOBODY else: every other party (other mediators, the final recipient, outsiders) gets the
